@@ -332,6 +332,35 @@ class TicketTap(E1Prop):
         gen.g_jira = g_jira
         gen.weights['jira'] = self.WEIGHTS['jira']
 
+    def next_op(self, w, rng, step, nsteps):
+        if step == 0:
+            self.script = []
+            if w.cfg.get('stabs') and rng.random() < 0.5:
+                # story: a PR is evaluated while a stabilization branch is
+                # alive; the branch is then released (archived: its tag is
+                # pushed, the branch deleted); a second PR carries a ticket
+                # that fits the versions expected *now*
+                dests = ops.dest_branches(w.cfg)
+                stab = [d for d in dests if d.startswith('stabilization/')][0]
+                devs = [d for d in dests if d.startswith('development/')]
+                seq = [{'op': 'open_pr', 'actor': 'alice',
+                        'src': 'bugfix/TEST-981', 'dst': devs[0],
+                        'kind': 'new'},
+                       {'op': 'eval', 'p': 0},
+                       {'op': 'api', 'job': 'delete_branch',
+                        'kwargs': {'branch': stab}},
+                       {'op': 'open_pr', 'actor': 'bob',
+                        'src': 'bugfix/TEST-982', 'dst': devs[0],
+                        'kind': 'new'},
+                       {'op': 'fitjira', 'p': 1},
+                       {'op': 'eval', 'p': 1}, {'op': 'eval', 'p': 1}]
+                for o in seq:
+                    o['dt'] = rng.choice([1, 5, 30])
+                self.script = seq
+        if getattr(self, 'script', None):
+            return self.script.pop(0)
+        return self.gen.next(w)
+
     def check_job(self, w, rec):
         from .c11 import reference
         p = evaluated_pr(w, rec)
@@ -395,6 +424,20 @@ class TicketTap(E1Prop):
         self.fail_window = max(0, getattr(self, 'fail_window', 0) - 1)
         w.jira.recent_fail = self.fail_window > 0 or \
             w.jira.fail_next is not None
+        if op['op'] == 'fitjira':
+            # the ticket of that PR gets exactly the versions expected now
+            pr = ops.user_pr(w, op.get('p'))
+            w.stats['ops'] += 1
+            if pr is not None:
+                m = re.match(r'^\w+/([a-zA-Z0-9_]+-[0-9]+)', pr.src_branch)
+                lay = layout_from_refs(w.refs())
+                fix = [v for v in (lay.fix_versions(pr.dst_branch) or [])
+                       if v]
+                if m:
+                    w.jira.issues[m.group(1).upper()] = {
+                        'type': 'Bug', 'fixVersions': fix}
+            w.step_digest(op, [])
+            return []
         return ops.apply_op(w, op)
 
     def nontrivial(self, w):
